@@ -1399,3 +1399,68 @@ def named_front_axes(t, depth=0):
         if fq and fq.endswith('_compute_precision_cholesky') and pos:
             return named_front_axes(pos[0], depth + 1)          # maps a stack of matrices to the stack of their factors
     return 0
+
+
+def rank_sources_in(ax):
+    """the arrays whose rank an axis expression is computed from (x.ndim, np.ndim(x), len(x.shape)), as stripped terms"""
+    out = []
+    if not isinstance(ax, T):
+        return out
+
+    def source(x):
+        if x.op == 'attr' and x.args[1] == 'ndim':
+            return strip_views(x.args[0])
+        if is_call_to(x, 'numpy.ndim') and call_arg(x, 0) is not None:
+            return strip_views(call_arg(x, 0))
+        if is_call_to(x, 'builtin.len') and call_arg(x, 0) is not None and strip_views(call_arg(x, 0)).op == 'attr' and strip_views(call_arg(x, 0)).args[1] == 'shape':
+            return strip_views(strip_views(call_arg(x, 0)).args[0])
+        return None
+    seen = set()
+
+    def rec(t, depth=0):
+        if not isinstance(t, T) or t.id in seen or depth > 30:
+            return
+        seen.add(t.id)
+        s0 = source(t)
+        if s0 is not None:
+            out.append(s0)
+            return
+        if t.op == 'binop' and t.args[0] == 'Sub' and isinstance(t.args[1], T) and t.args[1].op == 'binop' and t.args[1].args[0] == 'Mod':
+            # a % n - n with n the rank of ANY array with at least |a| axes is the axis a counted from the back: the result does not depend on that rank
+            r1, r2 = source(strip_views(t.args[1].args[2])) if isinstance(t.args[1].args[2], T) else None, source(strip_views(t.args[2])) if isinstance(t.args[2], T) else None
+            if r1 is not None and r2 is not None and r1 is r2:
+                rec(t.args[1].args[1], depth + 1)
+                return
+        for a in t.args:
+            if isinstance(a, T):
+                rec(a, depth + 1)
+            elif isinstance(a, tuple):
+                for b in a:
+                    if isinstance(b, T):
+                        rec(b, depth + 1)
+                    elif isinstance(b, tuple):
+                        for c in b:
+                            if isinstance(c, T):
+                                rec(c, depth + 1)
+    rec(ax)
+    return out
+
+
+def foreign_rank_axis(ax, opnd):
+    """an axis of `opnd` that is still an expression of the rank of some array after the builder's rank arithmetic: the builder could not tie that rank to the rank of the
+    operand.  -> ('foreign', src) when the array is a parameter the operand does not even derive from; ('untied', src) when the operand combines it with other arrays
+    (broadcasting: the operand has the rank of the LARGEST of them, the axis is only right while the ranks happen to agree); None when no rank occurs in the axis"""
+    a0 = strip_views(ax) if isinstance(ax, T) else ax
+    for _ in range(3):
+        if isinstance(a0, T) and is_call_to(a0, 'builtin.tuple', 'builtin.list') and len(call_parts(a0)[1]) == 1:
+            a0 = strip_views(call_parts(a0)[1][0])
+    if isinstance(a0, T) and is_call_to(a0, 'builtin.range') and len(call_parts(a0)[1]) == 1:
+        return None          # the first k positions (np.expand_dims(x, tuple(range(k)))): unit axes put in FRONT mean the same for every rank, however k is computed
+    srcs = rank_sources_in(ax)
+    if not srcs or opnd is None:
+        return None
+    params = {x.args[0] for x in data_terms(opnd) if x.op == 'param'}
+    for s in srcs:
+        if s.op == 'param' and s.args[0] not in params:
+            return ('foreign', s)
+    return ('untied', srcs[0])
